@@ -22,25 +22,31 @@ import SerfProofs.Lemmas.Codec
 namespace SerfProofs.C33
 open SerfModel.LimitSteps SerfModel.Limits SerfModel.Gen.Limits SerfModel.Msgpack SerfModel.Codec
 
-/-! #### what the generated code looks like (decided on the regenerated definitions) -/
+/-! #### what the generated code looks like (decided on the regenerated definitions)
 
-/-- the four guards of UserEvent, in order, with their operands -/
+The extractor alpha-normalises (receiver, parameters, locals, constants, helper calls), so
+these obligations pin MEANING: which quantity is compared with which limit, in which order,
+relative to which clock steps, tests and observable effects. -/
+
+/-- the four guards of UserEvent, in order: len(name)+len(payload) (parameters 0 and 1) and the
+encoded message, each against the configured limit and against the constant 9216 -/
 theorem C33_gen_event_guards :
-    guards userEvent =
-      [("len(name) + len(payload)", "s.config.UserEventSizeLimit"), ("len(name) + len(payload)", "UserEventSizeLimit"),
-       ("len(raw)", "s.config.UserEventSizeLimit"), ("len(raw)", "UserEventSizeLimit")] := by decide
+    guardShapes userEvent =
+      [(.sumLenParams [0, 1], .cfg "UserEventSizeLimit"), (.sumLenParams [0, 1], .const 9216),
+       (.lenEnc "" "encodeMessage:messageUserEventType" [], .cfg "UserEventSizeLimit"),
+       (.lenEnc "" "encodeMessage:messageUserEventType" [], .const 9216)] := by decide
 
-/-- `raw` is the encoding of a message built from exactly the caller's name and payload -/
+set_option maxRecDepth 8000 in
+/-- the guarded encoding is that of a message built from exactly the caller's name and payload,
+and the very same encoding is what gets queued for broadcast -/
 theorem C33_gen_event_encodes_inputs :
-    userEvent.contains (.clock "eventClock.Increment" "msg := messageUserEvent{ LTime: s.eventClock.Increment() - 1, Name: name, Payload: payload, CC: coalesce, }") = true
-    ∧ userEvent.contains (.pure "raw, err := encodeMessage(messageUserEventType, &msg, s.msgpackUseNewTimeFormat)") = true
-    ∧ userEvent.contains (.effect "QueueBroadcast" "&broadcast{ msg: raw, }") = true := by decide
+    (guardedEncs userEvent).all (fun e => fieldOf e.2.2 "Name" = some "p0" && fieldOf e.2.2 "Payload" = some "p1") = true
+    ∧ effectArgs "QueueBroadcast" userEvent = ((guardedEncs userEvent).take 1).map (fun e => [Arg.enc e.1 e.2.1]) := by decide
 
 theorem C33_gen_hard_limit : hard = 9216 := by decide
 
-/-- the order of guards, clock steps and observable effects in UserEvent and Query: the only
-thing before the last guard is the clock increment at message construction; every
-observable effect follows every guard. -/
+/-- order of guards, clock steps and observable effects: the only thing before the last guard
+is the clock increment of message construction; every observable effect follows every guard. -/
 theorem C33_gen_event_skeleton :
     skeleton userEvent =
       ["guard", "guard", "clock:eventClock.Increment", "guard", "guard", "effect:handleUserEvent", "effect:QueueBroadcast"] := by
@@ -48,23 +54,36 @@ theorem C33_gen_event_skeleton :
 
 theorem C33_gen_query_skeleton :
     skeleton query =
-      ["clock:queryClock.Increment", "guard", "effect:registerQueryResponse", "effect:handleQuery", "effect:QueueBroadcast"] := by
+      ["test:recv.ProtocolVersion() < 4", "clock:queryClock.Increment", "guard", "effect:registerQueryResponse",
+       "effect:handleQuery", "effect:QueueBroadcast"] := by
   decide
 
-/-- in every size-limited function all observable effects come after all guards / checks -/
+set_option maxRecDepth 8000 in
+theorem C33_gen_query_guards :
+    guardShapes query = [(.lenEnc "" "encodeMessage:messageQueryType" [], .cfg "QuerySizeLimit")]
+    ∧ effectArgs "QueueBroadcast" query = (guardedEncs query).map (fun e => [Arg.enc e.1 e.2.1]) := by decide
+
+/-- in every size-limited function all observable effects come after all guards / tests -/
 theorem C33_gen_effects_after_gates :
     effectsAfterGates userEvent = true ∧ effectsAfterGates query = true
     ∧ effectsAfterGates respondWithMessageAndResponse = true ∧ effectsAfterGates relayResponse = true := by decide
 
-theorem C33_gen_query_guards : guards query = [("len(raw)", "s.config.QuerySizeLimit")] := by decide
-
+set_option maxRecDepth 8000 in
+/-- responses: Respond hands the ENCODED response (parameter 0) to respondWithMessageAndResponse, which
+compares its length with the limit first, then tests "already responded" and "past the deadline",
+then sends exactly that parameter, then relays; relayResponse compares the encoded relay message with
+the limit and sends exactly that encoding. -/
 theorem C33_gen_response_wiring :
-    respond.contains (.effect "respondWithMessageAndResponse" "raw, resp") = true
-    ∧ respondWithMessageAndResponse.head? = some (.check "q.checkResponseSize(raw)")
-    ∧ respondWithMessageAndResponse.contains (.effect "SendToAddress" "addr, raw") = true
-    ∧ guards checkResponseSize = [("len(resp)", "q.serf.config.QueryResponseSizeLimit")]
-    ∧ guards relayResponse = [("len(raw)", "s.config.QueryResponseSizeLimit")]
-    ∧ relayResponse.contains (.effect "SendToAddress" "relayAddr, raw") = true := by decide
+    (effectArgs "respondWithMessageAndResponse" respond).map (fun a => a.head?.map Arg.shape)
+        = [some (Arg.enc "encodeMessage:messageQueryResponseType" "")]
+    ∧ skeleton respondWithMessageAndResponse =
+        ["guard", "test:recv.deadline.IsZero()", "test:time.Now().After(recv.deadline)", "effect:SendToAddress", "effect:relayResponse"]
+    ∧ guardShapes respondWithMessageAndResponse = [(.sumLenParams [0], .cfg "QueryResponseSizeLimit")]
+    ∧ (effectArgs "SendToAddress" respondWithMessageAndResponse).map (·.getLast?) = [some (Arg.param 0)]
+    ∧ skeleton relayResponse = ["guard", "effect:SendToAddress"]
+    ∧ guardShapes relayResponse = [(.lenEnc "" "encodeRelayMessage:messageQueryResponseType" [], .cfg "QueryResponseSizeLimit")]
+    ∧ (effectArgs "SendToAddress" relayResponse).map (·.getLast?) = (guardedEncs relayResponse).map (fun e => some (Arg.enc e.1 e.2.1)) := by
+  decide
 
 /-! #### user events -/
 
@@ -124,41 +143,52 @@ example : (userEvent ⟨512, 1024, 1024⟩ 10 100 160).ok = true := by decide
 
 /-! #### queries -/
 
-/-- anything observable (registration, local delivery, broadcast) ⇒ encoded length ≤ QuerySizeLimit -/
-theorem C33_query (cfg : Cfg) (encLen : Nat) (h : (query cfg encLen).effects ≠ []) : encLen ≤ cfg.qLimit := by
+/-- anything observable (registration, local delivery, broadcast) ⇒ encoded length ≤ QuerySizeLimit,
+whatever the other tests (protocol version) say -/
+theorem C33_query (cfg : Cfg) (encLen : Nat) (tf : String → Bool) (h : (queryT cfg encLen tf).effects ≠ []) :
+    encLen ≤ cfg.qLimit := by
   revert h
-  simp [SerfModel.Limits.query, SerfModel.Gen.Limits.query, run, qEnv]
-  split
-  · simp [Outcome.effects, observable]
-  · intro; omega
-example : (query ⟨512, 1024, 1024⟩ 1024).effects ≠ [] := by decide
+  simp only [queryT, SerfModel.Gen.Limits.query, run, qEnv]
+  repeat' split
+  all_goals simp_all [Outcome.effects, observable]
+  all_goals omega
+example : (queryT ⟨512, 1024, 1024⟩ 1024 (fun _ => false)).effects ≠ [] := by decide
 
 /-- an oversize query: nothing registered, delivered or queued; only the query clock moved -/
 theorem C33_query_rejected_silent (cfg : Cfg) (encLen : Nat) (h : cfg.qLimit < encLen) :
     (query cfg encLen) = ⟨false, [.clock "queryClock.Increment"]⟩ ∧ (query cfg encLen).effects = [] := by
-  simp [SerfModel.Limits.query, SerfModel.Gen.Limits.query, run, qEnv, h, Outcome.effects, observable]
+  simp [SerfModel.Limits.query, queryT, SerfModel.Gen.Limits.query, run, qEnv, h, Outcome.effects, observable]
 example : (1024 : Nat) < 1025 := by decide
 
 /-! #### query responses, direct and relayed -/
 
-/-- the direct response is sent ⇒ its encoded length ≤ QueryResponseSizeLimit -/
-theorem C33_response (cfg : Cfg) (respLen : Nat) (h : "SendToAddress" ∈ (respondWith cfg respLen).effects) :
-    respLen ≤ cfg.rLimit := by
+/-- the direct response is sent ⇒ its ENCODED length ≤ QueryResponseSizeLimit, the query had not been
+answered before and its deadline has not passed -/
+theorem C33_response (cfg : Cfg) (respLen : Nat) (tf : String → Bool)
+    (h : "SendToAddress" ∈ (respondWithT cfg respLen tf).effects) :
+    respLen ≤ cfg.rLimit ∧ tf "recv.deadline.IsZero()" = false ∧ tf "time.Now().After(recv.deadline)" = false := by
   revert h
-  simp [respondWith, SerfModel.Gen.Limits.respondWithMessageAndResponse, SerfModel.Gen.Limits.checkResponseSize, run, rEnv]
-  split
-  · simp [Outcome.effects, observable]
-  · intro; omega
-example : "SendToAddress" ∈ (respondWith ⟨512, 1024, 1024⟩ 1024).effects := by decide
+  simp only [respondWithT, SerfModel.Gen.Limits.respondWithMessageAndResponse, run, rEnv]
+  repeat' split
+  all_goals simp_all [Outcome.effects, observable]
+  all_goals omega
+example : "SendToAddress" ∈ (respondWithT ⟨512, 1024, 1024⟩ 1024 (fun _ => false)).effects := by decide
+
+/-- the relay (of the same response) happens after the direct send, never without it -/
+theorem C33_response_relay_after_direct (cfg : Cfg) (respLen : Nat) (tf : String → Bool) :
+    (respondWithT cfg respLen tf).effects = [] ∨ (respondWithT cfg respLen tf).effects = ["SendToAddress", "relayResponse"] := by
+  simp only [respondWithT, SerfModel.Gen.Limits.respondWithMessageAndResponse, run]
+  repeat' split
+  all_goals simp [Outcome.effects, observable]
 
 /-- a relayed copy is sent ⇒ the relay message is within the limit … -/
 theorem C33_response_relayed (cfg : Cfg) (relayLen : Nat) (h : "SendToAddress" ∈ (relay cfg relayLen).effects) :
     relayLen ≤ cfg.rLimit := by
   revert h
-  simp [relay, SerfModel.Gen.Limits.relayResponse, run, rEnv]
-  split
-  · simp [Outcome.effects, observable]
-  · intro; omega
+  simp only [relay, SerfModel.Gen.Limits.relayResponse, run, rEnv]
+  repeat' split
+  all_goals simp_all [Outcome.effects, observable]
+  all_goals omega
 example : "SendToAddress" ∈ (relay ⟨512, 1024, 1024⟩ 1024).effects := by decide
 
 /-- … and so is the copy the relay node forwards to the destination (the bytes after the header). -/
